@@ -100,3 +100,76 @@ Proof.
   cbn [repeat]. unfold idx, upd. cbn [Z.to_nat nth_error obind firstn skipn app].
   rewrite g_from_limbs_eq by assumption. destruct (Conv.from_limbs bits (x :: repeat 0 n)); reflexivity.
 Qed.
+
+(* ---------------- src/lib.rs: the from_limbs_slice family ---------------- *)
+Lemma set_nth_upd : forall (l : list Z) i v, (i < length l)%nat ->
+  Conv.set_nth l i v = Val (upd l (Z.of_nat i) v).
+Proof.
+  induction l as [|x t IH]; intros i v Hi; [cbn in Hi; lia|].
+  destruct i as [|i]; cbn [Conv.set_nth].
+  - reflexivity.
+  - rewrite IH by (cbn in Hi; lia). cbn [obind]. f_equal.
+    unfold upd. rewrite !Nat2Z.id. reflexivity.
+Qed.
+Lemma skipn_repeat0 k n : skipn k (repeat 0 n) = repeat 0 (n - k).
+Proof.
+  revert n; induction k as [|k IH]; intros n; [now rewrite Nat.sub_0_r|].
+  destruct n as [|n]; [reflexivity|]. cbn [repeat skipn]. apply IH.
+Qed.
+
+Theorem g_from_limbs_slice_family bits slice :
+  0 <= bits -> nlimbs bits < B ->
+  g_overflowing_from_limbs_slice bits (nlimbs bits) slice = Conv.overflowing_from_limbs_slice bits slice /\
+  g_from_limbs_slice bits (nlimbs bits) slice = Conv.from_limbs_slice bits slice /\
+  g_checked_from_limbs_slice bits (nlimbs bits) slice = Conv.checked_from_limbs_slice bits slice /\
+  g_wrapping_from_limbs_slice bits (nlimbs bits) slice = Conv.wrapping_from_limbs_slice bits slice.
+Proof.
+  intros H0 HB. pose proof (nlimbs_nonneg bits H0) as HL.
+  assert (HB' : nlimbs bits <= B) by lia.
+  assert (HN : Z.of_nat (nlimbsN bits) = nlimbs bits) by (unfold nlimbsN; lia).
+  assert (Eo : g_overflowing_from_limbs_slice bits (nlimbs bits) slice = Conv.overflowing_from_limbs_slice bits slice).
+  { unfold g_overflowing_from_limbs_slice, Conv.overflowing_from_limbs_slice. cbv zeta.
+    change (Z.to_nat (nlimbs bits)) with (nlimbsN bits).
+    destruct (Z.ltb_spec (lenZ slice) (nlimbs bits)) as [Hlt|Hge], (Nat.ltb_spec (length slice) (nlimbsN bits)) as [Hlt'|Hge'];
+      unfold lenZ in *; try lia.
+    - unfold subslice, lenZ. rewrite repeat_length.
+      replace ((0 <=? 0) && (0 <=? Z.of_nat (length slice)) && (Z.of_nat (length slice) <=? Z.of_nat (nlimbsN bits))) with true by lia.
+      cbn [obind Z.to_nat skipn]. rewrite Z.sub_0_r, Nat2Z.id, firstn_length, repeat_length, Nat.min_l by lia.
+      rewrite Z.eqb_refl. cbn [negb].
+      unfold splice. cbn [Z.to_nat firstn app Nat.add]. rewrite skipn_repeat0.
+      rewrite g_from_limbs_eq by assumption.
+      destruct (Conv.from_limbs bits (slice ++ repeat 0 (nlimbsN bits - length slice))); reflexivity.
+    - unfold subslice, lenZ.
+      replace ((0 <=? 0) && (0 <=? nlimbs bits) && (nlimbs bits <=? Z.of_nat (length slice))) with true by lia.
+      replace ((0 <=? nlimbs bits) && (nlimbs bits <=? Z.of_nat (length slice)) && (Z.of_nat (length slice) <=? Z.of_nat (length slice))) with true by lia.
+      cbn [obind Z.to_nat skipn]. rewrite Z.sub_0_r. change (Z.to_nat (nlimbs bits)) with (nlimbsN bits).
+      replace (Z.to_nat (Z.of_nat (length slice) - nlimbs bits)) with (length (skipn (nlimbsN bits) slice)) by (rewrite skipn_length; lia).
+      rewrite firstn_all, repeat_length, firstn_length, Nat.min_l by lia.
+      rewrite Z.eqb_refl. cbn [negb].
+      destruct (Z.ltb_spec 0 (nlimbs bits)) as [Hp|Hp], (Nat.ltb_spec 0 (nlimbsN bits)) as [Hp'|Hp']; try lia.
+      + rewrite !chk64_ok by lia. cbn [obind]. rewrite g_mask_eq by assumption. cbn [obind].
+        unfold idx, Conv.get_nth. replace (Z.to_nat (nlimbs bits - 1)) with (nlimbsN bits - 1)%nat by lia.
+        destruct (nth_error (firstn (nlimbsN bits) slice) (nlimbsN bits - 1)) as [top|] eqn:Et; cbn [obind]; [|reflexivity].
+        rewrite (set_nth_upd _ (nlimbsN bits - 1)) by (rewrite firstn_length; lia). cbn [obind].
+        replace (Z.of_nat (nlimbsN bits - 1)) with (nlimbs bits - 1) by lia.
+        rewrite g_from_limbs_eq by assumption.
+        destruct (Conv.from_limbs bits _); reflexivity.
+      + cbn [obind]. rewrite g_from_limbs_eq by assumption.
+        destruct (Conv.from_limbs bits _); reflexivity. }
+  split; [exact Eo|]. split; [|split].
+  - unfold g_from_limbs_slice, Conv.from_limbs_slice. rewrite Eo.
+    destruct (Conv.overflowing_from_limbs_slice bits slice) as [[v [|]]| | | |]; reflexivity.
+  - unfold g_checked_from_limbs_slice, Conv.checked_from_limbs_slice. rewrite Eo.
+    destruct (Conv.overflowing_from_limbs_slice bits slice) as [[v [|]]| | | |]; reflexivity.
+  - unfold g_wrapping_from_limbs_slice, Conv.wrapping_from_limbs_slice. rewrite Eo.
+    destruct (Conv.overflowing_from_limbs_slice bits slice) as [[v o]| | | |]; reflexivity.
+Qed.
+
+Lemma g_saturating_from_limbs_slice_eq bits slice :
+  0 <= bits -> nlimbs bits < B ->
+  g_saturating_from_limbs_slice bits (nlimbs bits) slice = Conv.saturating_from_limbs_slice bits slice.
+Proof.
+  intros H0 HB. destruct (g_from_limbs_slice_family bits slice H0 HB) as (Eo & _).
+  unfold g_saturating_from_limbs_slice, Conv.saturating_from_limbs_slice. rewrite Eo.
+  destruct (Conv.overflowing_from_limbs_slice bits slice) as [[v [|]]| | | |]; reflexivity.
+Qed.
